@@ -1,7 +1,7 @@
 """Contracts for msmart.base_device.Device and msmart.device.AC.device.AirConditioner
 (C10 call site, C11, C13, C14, C15 paging, C16)."""
 from pyvc.dsl import contract, events, fields, fold, implies, lemma, old, opaque, pre, same_object
-from contracts.response import CAP_KEYS, PROP_KEYS, state_decode
+from contracts.response import CAP_KEYS, PROP_KEYS, accepts, state_decode
 from contracts.capabilities import merged
 from msmart.device.AC.command import (CapabilitiesResponse, Command, EnergyUsageResponse, GetCapabilitiesCommand,
                                       GetEnergyUsageCommand, GetHumidityCommand, GetPropertiesCommand, GetStateCommand,
@@ -54,6 +54,10 @@ def enum_or(cls, v, default):
     return cls(v) if v in cls.list() else default
 
 
+def prop(res, pid):
+    return res._properties.get(pid, None)
+
+
 def aux_mode_of(res):
     M = AirConditioner.AuxHeatMode
     return M.AUX_ONLY if res.independent_aux_heat else (M.AUX_HEAT if res.aux_heat else M.OFF)
@@ -64,8 +68,13 @@ contract(AC + "._update_state",
          params={"self": "obj:" + AC, "res": ANY_RESPONSE},
          modifies=STATE_ATTRS + PROP_ATTRS + ENERGY_ATTRS + HUM_ATTRS,
          raises={},
+         notes="contract used at call sites; its frame and raise-set are verified per response class by the variants below")
+
+contract(AC + "._update_state#state",
+         params={"self": "obj:" + AC, "res": "obj:" + CMD + "StateResponse"},
+         modifies=STATE_ATTRS + PROP_ATTRS + ENERGY_ATTRS + HUM_ATTRS,
+         raises={},
          ensures={
-             # C11: every exposed attribute equals the field of the state response
              "state.power": "implies(isinstance(res, StateResponse), self._power_state == res.power_on)",
              "state.temperature": "implies(isinstance(res, StateResponse), self._target_temperature == res.target_temperature)",
              "state.mode": "implies(isinstance(res, StateResponse) and res.operational_mode is not None, self._operational_mode == enum_or(AirConditioner.OperationalMode, res.operational_mode, AirConditioner.OperationalMode.FAN_ONLY))",
@@ -76,12 +85,32 @@ contract(AC + "._update_state",
              "state.sensors": "implies(isinstance(res, StateResponse), self._indoor_temperature == res.indoor_temperature and self._outdoor_temperature == res.outdoor_temperature and self._target_humidity == res.target_humidity)",
              "state.aux": "implies(isinstance(res, StateResponse), self._aux_mode == aux_mode_of(res))",
              "state.leaves_properties": "implies(isinstance(res, StateResponse), self._breeze_mode == old(self._breeze_mode) and self._ieco == old(self._ieco) and self._rate_select == old(self._rate_select) and self._indoor_humidity == old(self._indoor_humidity))",
-             # non-state responses do not touch the state attributes
+         })
+
+contract(AC + "._update_state#props",
+         params={"self": "obj:" + AC, "res": "obj:" + CMD + "PropertiesResponse"},
+         modifies=STATE_ATTRS + PROP_ATTRS + ENERGY_ATTRS + HUM_ATTRS,
+         raises={},
+         ensures={
+             # C16: property responses are read back into the attributes (absent properties leave them alone)
+             "props.ieco": "implies(isinstance(res, PropertiesResponse), self._ieco == (prop(res, PropertyId.IECO) if prop(res, PropertyId.IECO) is not None else old(self._ieco)))",
+             "props.self_clean": "implies(isinstance(res, PropertiesResponse), self._self_clean_active == (prop(res, PropertyId.SELF_CLEAN) if prop(res, PropertyId.SELF_CLEAN) is not None else old(self._self_clean_active)))",
+             "props.angles": "implies(isinstance(res, PropertiesResponse), self._horizontal_swing_angle == (enum_or(AirConditioner.SwingAngle, prop(res, PropertyId.SWING_LR_ANGLE), AirConditioner.SwingAngle.OFF) if prop(res, PropertyId.SWING_LR_ANGLE) is not None else old(self._horizontal_swing_angle)) and self._vertical_swing_angle == (enum_or(AirConditioner.SwingAngle, prop(res, PropertyId.SWING_UD_ANGLE), AirConditioner.SwingAngle.OFF) if prop(res, PropertyId.SWING_UD_ANGLE) is not None else old(self._vertical_swing_angle)))",
+             "props.rate_select": "implies(isinstance(res, PropertiesResponse), self._rate_select == (enum_or(AirConditioner.RateSelect, prop(res, PropertyId.RATE_SELECT), AirConditioner.RateSelect.OFF) if prop(res, PropertyId.RATE_SELECT) is not None else old(self._rate_select)))",
+             "props.breeze_control": "implies(isinstance(res, PropertiesResponse) and prop(res, PropertyId.BREEZE_CONTROL) is not None, self._breeze_mode == enum_or(AirConditioner.BreezeMode, prop(res, PropertyId.BREEZE_CONTROL), AirConditioner.BreezeMode.OFF))",
+             "props.breeze_legacy_on": "implies(isinstance(res, PropertiesResponse) and prop(res, PropertyId.BREEZE_CONTROL) is None, implies(prop(res, PropertyId.BREEZELESS) == True, self._breeze_mode == AirConditioner.BreezeMode.BREEZELESS) and implies(prop(res, PropertyId.BREEZE_AWAY) == True and prop(res, PropertyId.BREEZELESS) != True, self._breeze_mode == AirConditioner.BreezeMode.BREEZE_AWAY))",
+             "props.breeze_legacy_off": "implies(isinstance(res, PropertiesResponse) and prop(res, PropertyId.BREEZE_CONTROL) is None and prop(res, PropertyId.BREEZE_AWAY) == False and prop(res, PropertyId.BREEZELESS) == False and old(self._breeze_mode) != AirConditioner.BreezeMode.BREEZE_MILD, self._breeze_mode == AirConditioner.BreezeMode.OFF)",
+         })
+
+contract(AC + "._update_state#other",
+         params={"self": "obj:" + AC, "res": "union:obj:" + CMD + "CapabilitiesResponse|obj:" + CMD + "EnergyUsageResponse|obj:" + CMD + "HumidityResponse|obj:" + CMD + "Response"},
+         modifies=STATE_ATTRS + PROP_ATTRS + ENERGY_ATTRS + HUM_ATTRS,
+         raises={},
+         ensures={
              "other.leaves_state": "implies(not isinstance(res, StateResponse), self._power_state == old(self._power_state) and self._target_temperature == old(self._target_temperature) and self._operational_mode == old(self._operational_mode) and self._fan_speed == old(self._fan_speed) and self._swing_mode == old(self._swing_mode) and self._eco == old(self._eco) and self._turbo == old(self._turbo) and self._aux_mode == old(self._aux_mode) and self._target_humidity == old(self._target_humidity) and self._display_on == old(self._display_on))",
              "humidity": "implies(isinstance(res, HumidityResponse), self._indoor_humidity == res.humidity)",
              "unknown_ignored": "implies(type(res) is Response or isinstance(res, CapabilitiesResponse), self._indoor_humidity == old(self._indoor_humidity) and self._ieco == old(self._ieco) and self._breeze_mode == old(self._breeze_mode) and self._total_energy_usage == old(self._total_energy_usage))",
          })
-
 
 # ---- exchanges ---------------------------------------------------------------------------------------------------
 G = {CMD + "Command._message_id": "int"}
@@ -101,9 +130,11 @@ contract(AC + "._send_command_get_responses",
          assigns={"self._supported": "len(result) > 0"},
          emits={"sent": "command"},
          raises={},
-         ensures={"one_exchange": "len(events('sent')) == 1 and same_object(events('sent')[0], command)"},
+         ensures={"one_exchange": "len(events('sent')) == 1 and same_object(events('sent')[0], command)",
+                  "every_frame_is_examined": "final('_i') == len(final('responses'))"},
          loops={"0": {"havoc": {"valid_responses": "list:" + ANY_RESPONSE},
-                      "invariant": ["len(valid_responses) <= _i"]}})
+                      "invariant": ["len(valid_responses) <= _i"],
+                      "step_ensures": {"kept_iff_decodable": "len(valid_responses) == pre(len(valid_responses)) + (1 if accepts(pre(data)) else 0)"}}})
 
 contract(AC + "._send_command_get_response_with_id",
          params={"self": "obj:" + AC, "command": "obj:" + CMD + "Command", "response_id": "int"}, globals=G,
